@@ -41,7 +41,8 @@ MANIFEST = {
     "technique": "Lean 4 proof (simulation invariant between model and monitor, by induction over histories) + model/implementation correspondence on a virtual-time loop",
 }
 RULE = ("histories of <= 25 (thorough <= 40) operations over {SUBSCRIBE new (good / malformed CALLBACK and TIMEOUT), renewal and "
-        "UNSUBSCRIBE of known / unknown / ended SIDs, set variable (same / new value), advance virtual time (10 ms .. 2 h), "
+        "UNSUBSCRIBE of known / unknown / empty / ended SIDs, set variable (same / new value), bursts of 2..6 assignments without "
+        "yielding to the loop, advance virtual time (10 ms .. 2 h), "
         "complete an outstanding NOTIFY (any order), preset event key near 2^32-1} on a service with 1..4 variables "
         "(moderation 0 / 0.2 s / 2 s, with / without default, one optionally not evented) and up to 4 subscribers; plus "
         "structured scenarios (bursts inside a moderation interval, change during an initial delivery, expiry, timer ties) "
@@ -51,7 +52,7 @@ EXHAUSTIVE = {"quick": False, "thorough": False}
 ASSUMPTIONS = [
     "variables hold Python ints of UPnP type i4 (value validation and other data types are C08/C14's subject)",
     "header text is ASCII; TIMEOUT values have at most 9 digits (beyond that timedelta overflows: outside the alphabet)",
-    "each operation is followed by running the loop until idle; two assignments without yielding to the loop are not generated",
+    "each operation is followed by running the loop until idle (a burst operation makes its assignments without yielding in between)",
     "NOTIFY deliveries complete successfully (a failing delivery only raises out of the fire-and-forget task)",
 ]
 TRUSTED = ["C15: asyncio run-to-quiescence semantics and the µs-snapped virtual-time loop; aiohttp Response.prepare on a mocked request"]
@@ -252,12 +253,12 @@ def run_recipe(ctx: Ctx, recipe: Dict[str, Any], cid: str) -> Case:
     def opt_tok(s: Optional[str]) -> str:
         return "~" if s is None else tok_str(s)
 
-    def flush() -> None:
+    def flush(sort_ties: bool = False) -> None:
         # two timers due at the same instant fire in heap order: sort adjacent same-time trigger lines
         i = 0
         while i < len(obs):
             j = i
-            if obs[i].startswith("o trig "):
+            if sort_ties and obs[i].startswith("o trig "):
                 while j < len(obs) and obs[j].startswith("o trig ") and obs[j].split()[3] == obs[i].split()[3]:
                     j += 1
                 if j - i > 1:
@@ -305,6 +306,14 @@ def run_recipe(ctx: Ctx, recipe: Dict[str, Any], cid: str) -> Case:
                 lines.append(f"set {x} {v}")
                 svc.state_variable(names[x]).value = v
                 await _settle(loop)
+            elif name == "burst":
+                pairs = [(x, v) for x, v in op[1] if x < len(names)]
+                if not pairs:
+                    continue
+                lines.append("burst " + ",".join(f"{x}={v}" for x, v in pairs))
+                for x, v in pairs:  # no yield to the loop between the assignments
+                    svc.state_variable(names[x]).value = v
+                await _settle(loop)
             elif name == "adv":
                 _, dt = op
                 lines.append(f"adv {dt}")
@@ -340,7 +349,7 @@ def run_recipe(ctx: Ctx, recipe: Dict[str, Any], cid: str) -> Case:
                     tags.add(f"resp:{t[2]}")
                 elif t[1] == "notify" and t[3] == "4294967295":
                     tags.add("key-wrap")
-            flush()
+            flush(sort_ties=(name == "adv"))
 
     try:
         asyncio.set_event_loop(loop)
@@ -411,10 +420,14 @@ def rand_history(rng, max_ops: int):
             r = rng.randrange(8)
             ref = None if r == 0 else rng.choice(["u", "e"]) if r == 1 else rng.randrange(0, max(nsub, 1))
             ops.append(["unsub", ref])
-        elif c < 62:
+        elif c < 56:
             x = rng.randrange(0, len(vs))
             ops.append(["set", x, rng.choice([0, 1, 2, 7, -3, rng.randrange(-50, 1000)])])
             ndel += nsub
+        elif c < 62:
+            k = rng.randrange(2, 5)
+            ops.append(["burst", [[rng.randrange(0, len(vs)), rng.choice([0, 1, 2, 7, rng.randrange(-50, 1000)])] for _ in range(k)]])
+            ndel += nsub * k
         elif c < 82:
             if style == 0:
                 dt = rng.choice(ADV)
@@ -454,6 +467,11 @@ def scenarios() -> List[Dict[str, Any]]:
     out.append({"vars": [[True, 200000, 0], [True, 2000000, 0], [True, 0, None]],
                 "ops": [sub, ["adv", 2000000], ["set", 1, 1], ["adv", 1800000], ["set", 0, 1], ["adv", 100000], ["set", 0, 2],
                         ["set", 1, 2], ["adv", 100000], ["set", 2, 1], ["adv", 1000000]]})
+    # several assignments without yielding to the loop (same and different variables)
+    for r0, r1 in itertools.product(RATES, RATES):
+        out.append({"vars": [[True, r0, 0], [True, r1, None], [False, 0, None]],
+                    "ops": [sub, ["burst", [[0, 1], [0, 2], [1, 1], [2, 4], [0, 3], [1, 1]]], ["adv", 100000],
+                            ["burst", [[1, 2], [0, 3], [0, 4], [1, 3]]], ["adv", 3000000]]})
     # key wrap
     out.append({"vars": [[True, 0, 0]], "ops": [sub, ["setkey", 0, 4294967294], ["set", 0, 1], ["set", 0, 2], ["set", 0, 3], ["set", 0, 4]]})
     return out
@@ -484,6 +502,8 @@ CORPUS: List[Dict[str, Any]] = [
     {"vars": [[True, 0, 0]], "ops": [["sub", "<http://h/a>", None], ["set", 0, 5], ["done", 0], ["adv", 1000000]]},
     # F15c: SUBSCRIBE with an empty SID header and a CALLBACK was answered 200 + new SID without registering anybody
     {"vars": [[True, 0, 0]], "ops": [["renew", "e", "<http://h/a>", "Second-5"], ["set", 0, 1], ["unsub", "e"]]},
+    # F15d: two assignments to a moderated variable without yielding to the loop gave two events at the same instant
+    {"vars": [[True, 2000000, None]], "ops": [["sub", "<http://h/a>", None], ["burst", [[0, 1], [0, 2], [0, 3]]], ["adv", 3000000]]},
 ]
 
 
